@@ -7,6 +7,7 @@ usage: python -m harness.drivers.d_tree IN.ndjson OUT.ndjson families
 """
 import json, sys, os, itertools, multiprocessing as mp
 
+from harness.drivers import pmap
 import optree
 from harness import vuniv as U
 
@@ -167,7 +168,7 @@ def roundtrip(t, cfg, ctx, obj):
     return [case]
 
 
-def c03_extra(t, cfg, ctx, obj):
+def _c03_extra(t, cfg, ctx, obj):
     """C03 beyond the eight flatteners: tree_is_leaf / all_leaves, reductions vs Python folds, hash/repr of the treespecs
     returned by different entry points, paths/accessors recomputed from the treespec alone"""
     import functools, operator
@@ -211,15 +212,37 @@ def c03_extra(t, cfg, ctx, obj):
             case['all_leaves_children'] = {'v': bool(optree.all_leaves(kids, pred, **kw)), 'n': len(kids)}
         # folds (only when every leaf is a plain Leaf object: they carry arithmetic)
         if leaves and all(type(x) is U.Leaf for x in leaves):
-            case['folds'] = {k: (v.n if type(v) is U.Leaf else v) for k, v in {
-                'reduce': optree.tree_reduce(operator.add, obj, is_leaf=pred, **kw), 'py_reduce': functools.reduce(operator.add, leaves),
-                'reduce_init': optree.tree_reduce(operator.add, obj, 1000, is_leaf=pred, **kw),
-                'sum': optree.tree_sum(obj, is_leaf=pred, **kw), 'py_sum': sum(leaves),
-                'max': optree.tree_max(obj, is_leaf=pred, **kw).n, 'min': optree.tree_min(obj, is_leaf=pred, **kw).n,
-                'all': bool(optree.tree_all(obj, is_leaf=pred, **kw)), 'any': bool(optree.tree_any(obj, is_leaf=pred, **kw)),
-                'py_all': all(leaves), 'py_any': any(leaves),
-            }.items()}
+            # total: a fold that raises although the flatten of the same tree succeeded is recorded as a value no fold can have
+            def num(fn):
+                try:
+                    v = fn()
+                    return v.n if type(v) is U.Leaf else v
+                except Exception:  # noqa: BLE001
+                    return -987654
+
+            def boo(fn, py):
+                try:
+                    return bool(fn())
+                except Exception:  # noqa: BLE001
+                    return not py
+            py_all, py_any = all(leaves), any(leaves)
+            case['folds'] = {
+                'reduce': num(lambda: optree.tree_reduce(operator.add, obj, is_leaf=pred, **kw)), 'py_reduce': functools.reduce(operator.add, leaves).n,
+                'reduce_init': num(lambda: optree.tree_reduce(operator.add, obj, 1000, is_leaf=pred, **kw)),
+                'sum': num(lambda: optree.tree_sum(obj, is_leaf=pred, **kw)), 'py_sum': num(lambda: sum(leaves)),
+                'max': num(lambda: optree.tree_max(obj, is_leaf=pred, **kw)), 'min': num(lambda: optree.tree_min(obj, is_leaf=pred, **kw)),
+                'all': boo(lambda: optree.tree_all(obj, is_leaf=pred, **kw), py_all), 'any': boo(lambda: optree.tree_any(obj, is_leaf=pred, **kw), py_any),
+                'py_all': py_all, 'py_any': py_any,
+            }
     return [case]
+
+
+def c03_extra(t, cfg, ctx, obj):
+    """total wrapper: an entry point that raises although tree_flatten of the same tree succeeded is itself the observation"""
+    try:
+        return _c03_extra(t, cfg, ctx, obj)
+    except Exception as ex:  # noqa: BLE001
+        return [{'op': 'c03extra', 't': t, 'cfg': cfg, 'err': 'after-flatten:' + U.exc_class(ex)}]
 
 
 def depth_cases(cfg0):
@@ -584,8 +607,8 @@ def main():
             for c in depth_cases(None):
                 fh.write(json.dumps(c, separators=(',', ':')) + '\n')
         return
-    with mp.Pool(int(os.environ.get('VERIF_PROCS', '16')), initializer=init) as pool, open(outp, 'w') as fh:
-        for res in pool.imap(work, lines, chunksize=16):
+    with open(outp, 'w') as fh:
+        for res in pmap(work, lines, init=init, chunksize=16):
             for c in res:
                 fh.write(c + '\n')
 
